@@ -214,3 +214,28 @@ def b_json_tolerant(r, what=""):
     if bad > max(3, len(r.printed) // 200):
         raise Broken("%d of %d behaviour lines of %s are unreadable" % (bad, len(r.printed), what))
     return out
+
+
+def load_replay(path):
+    """a replay artefact written by these checks: ndjson of {"case": harness input, "spec": the spec's behaviour}"""
+    recs = []
+    for line in open(path):
+        line = line.strip()
+        if line:
+            rec = json.loads(line)
+            if "case" not in rec or "spec" not in rec:
+                raise Broken("%s is not a replay artefact of this check" % path)
+            recs.append(rec)
+    if not recs:
+        raise Broken("empty replay artefact %s" % path)
+    return recs
+
+
+def finish_keeping_evidence(ctx):
+    """--replay re-executes one artefact; it must not overwrite the evidence of the last full run"""
+    ev = os.path.join(os.path.dirname(os.path.dirname(os.path.abspath(__file__))), "evidence", ctx.pid + ".json")
+    old = open(ev).read() if os.path.exists(ev) else None
+    rc = ctx.finish(exhaustive=False)
+    if old is not None:
+        open(ev, "w").write(old)
+    return rc
